@@ -9,16 +9,16 @@ PLAN = dict(
           "and without WriterTo, over sinks with and without ReaderFrom that fail after a drawn number of bytes by rejecting or by a short write): Written == "
           "bytes the sink accepted after every step, returned n == bytes accepted, no io.EOF from ReadFrom, no silent loss. Non-trivial: >=2 sections besides "
           "index/responses or >=2 index keys of different lengths (wellformed); >=2 ops or a failing sink (countingwriter)."),
-    assumptions=TRUSTED,
+    assumptions=TRUSTED + ["a b1 Bundle value without a primary URL cannot be written as b1: any refusal is accepted for it, including the nil dereference of the pinned commit (the one place where a check recovers from a panic of the code under test); a nil error for a file that is not a well-formed b1 bundle is a violation"],
     technique="rapid-generated bundles judged by an independent strict parser + canonical-CBOR judge; stateful model of the byte-accounting writer",
     level_text=("The writer is judged by a parser that shares no code with it (refbundle over refcbor) in strict mode, so an encoder error that the repository's "
                 "own reader would tolerate or mirror is still visible; the byte accounting mechanism is additionally model-checked by random operation sequences."),
     level_note=NOTE_BASE,
     runs=[
         dict(name="wf", run="^(TestPropWellFormed|TestCorpus)$", checks=(1500, 200000), shards=(2, 16), timeout=(300, 3600)),
-        dict(name="aligned", run="^TestAligned$", timeout=(300, 900)),
+        dict(name="aligned", run="^(TestAligned|TestOptionalParts)$", timeout=(300, 900)),
         dict(name="cw", run="^TestPropCountingWriter$", checks=(3000, 300000), shards=(1, 4), timeout=(300, 3600)),
     ],
-    require=[("wellformed", "sink:plain"), ("wellformed", "sink:readerfrom"), ("wellformed", "sink:counting-prewritten"), ("wellformed", "extra-sections-2"), ("countingwriter", "sink-failed"),
+    require=[("wellformed", "sink:plain"), ("wellformed", "sink:readerfrom"), ("wellformed", "sink:counting-prewritten"), ("wellformed", "extra-sections-2"), ("wellformed", "b1-without-primary-url"), ("countingwriter", "sink-failed"),
              ("countingwriter", "op:readfrom"), ("countingwriter", "op:copy-plain")],
 )
